@@ -534,6 +534,83 @@ func Pure(p *core.Prog, r *core.Report) {
 			clause(true, "EnumCase:fold-valid-runes", p.Pos(f.Pos()), "strings.EqualFold only sees runes of which neither is a lone invalid byte", "")
 		}
 		clause(fold, "EnumCase:fold", p.Pos(f.Pos()), "case-insensitive comparison through strings.EqualFold", "case folding for strings is gone")
+		// … and only when case-insensitivity was asked for: the folding comparison sits under caseSensitive == false,
+		// or is fed by a helper of the package that hands out something non-nil only when its caseSensitive
+		// argument is false
+		if len(f.Params) > 0 {
+			cs := f.Params[len(f.Params)-1]
+			if b, isB := cs.Type().Underlying().(*types.Basic); isB && b.Kind() == types.Bool {
+				underFalse := func(blk *ssa.BasicBlock, prm *ssa.Parameter) bool {
+					for _, cd := range core.CondsAt(blk) {
+						if cd.Value == ssa.Value(prm) && !cd.Sense {
+							return true
+						}
+						if u, isU := cd.Value.(*ssa.UnOp); isU && u.Op == token.NOT && u.X == ssa.Value(prm) && cd.Sense {
+							return true
+						}
+					}
+					return false
+				}
+				nilOnlyWhenSensitive := func(h *ssa.Function, j int) bool {
+					if len(h.Blocks) == 0 || j >= len(h.Params) {
+						return false
+					}
+					for _, hb := range h.Blocks {
+						ret, isRet := hb.Instrs[len(hb.Instrs)-1].(*ssa.Return)
+						if !isRet || len(ret.Results) != 1 {
+							continue
+						}
+						if core.IsNilConst(ret.Results[0]) {
+							continue
+						}
+						if !underFalse(hb, h.Params[j]) {
+							return false
+						}
+					}
+					return true
+				}
+				nFold, unguarded := 0, ""
+				core.EachInstr(f, func(i ssa.Instruction) {
+					c, ok := i.(*ssa.Call)
+					if !ok {
+						return
+					}
+					h := core.StaticCallee(c)
+					if h == nil || !(core.QualName(h) == "strings.EqualFold" || (p.InSubject(h) && foldHelper(p, h, 0))) {
+						return
+					}
+					nFold++
+					if underFalse(c.Block(), cs) {
+						return
+					}
+					for _, a := range c.Call.Args {
+						v := a
+						for d := 0; d < 4; d++ {
+							if u, isU := v.(*ssa.UnOp); isU {
+								v = u.X
+								continue
+							}
+							break
+						}
+						hc, isCall := v.(*ssa.Call)
+						if !isCall {
+							continue
+						}
+						hh := core.StaticCallee(hc)
+						if hh == nil || !p.InSubject(hh) {
+							continue
+						}
+						for j, ha := range hc.Call.Args {
+							if ha == ssa.Value(cs) && nilOnlyWhenSensitive(hh, j) {
+								return
+							}
+						}
+					}
+					unguarded = p.Pos(c.Pos())
+				})
+				clause(nFold > 0 && unguarded == "", "EnumCase:fold-only-insensitive", p.Pos(f.Pos()), "the folding comparison is reached only when caseSensitive is false", "the case-folding comparison ("+unguarded+") is also reached when the caller asked for a case-sensitive comparison: Enum(\"A\", [\"a\"]) finds a member")
+			}
+		}
 	}
 	// ---- polarity of the comparisons inside the equality predicates ---------------------------------
 	{
@@ -1211,4 +1288,23 @@ func scratchMapParam(p *core.Prog, f *ssa.Function, k int, assumed map[[2]interf
 		})
 	}
 	return ok && sites > 0
+}
+
+// foldHelper: a function of the package through which strings.EqualFold is reached (the rune-by-rune folding
+// helper, however it is split).
+func foldHelper(p *core.Prog, g *ssa.Function, d int) bool {
+	if g == nil || d > 4 || !p.InSubject(g) {
+		return false
+	}
+	found := false
+	core.EachInstr(g, func(i ssa.Instruction) {
+		if c, ok := i.(ssa.CallInstruction); ok {
+			if h := core.StaticCallee(c); h != nil {
+				if core.QualName(h) == "strings.EqualFold" || (h != g && foldHelper(p, h, d+1)) {
+					found = true
+				}
+			}
+		}
+	})
+	return found
 }
